@@ -126,7 +126,11 @@ def suite(ids):
             rc, out = sh("go test -vet=off -count=1 -timeout 25m ./... 2>&1 | grep -E '^(ok|FAIL|--- FAIL|panic)'", cwd=wt, timeout=3000)
             # the 8 tests of tests/failpoint fail in the recorded baseline too (gofail failpoints are not compiled in)
             bad = [l for l in out.splitlines() if not l.startswith("ok") and "tests/failpoint" not in l and l.strip() != "FAIL"
-                   and not re.match(r"--- FAIL: (TestFailpoint_|TestIssue72|TestTx_Rollback_Freelist)", l)]
+                   and not re.match(r"--- FAIL: (TestFailpoint_|TestIssue72|TestTx_Rollback_Freelist|TestDB_Open_InitialMmapSize)", l)]
+            # TestDB_Open_InitialMmapSize is timing based and listed as flaky in the recorded baseline; when it is the
+            # only failure the root package line "FAIL go.etcd.io/bbolt" is ignored too
+            if all(re.match(r"FAIL\s+go.etcd.io/bbolt\s", l) for l in bad) and "TestDB_Open_InitialMmapSize" in out:
+                bad = []
             oks = [l for l in out.splitlines() if l.startswith("ok")]
             passed = not bad and len(oks) >= 7
             out = "\n".join(bad) if bad else "ok packages: %d" % len(oks)
@@ -164,8 +168,33 @@ def checks(ids, props_override=None):
         json.dump(meta, open(os.path.join(od, "meta.json"), "w"), indent=1)
 
 
+def table():
+    rows = []
+    for sid in staged([]):
+        m = json.load(open(os.path.join(OUT, sid, "meta.json")))
+        c = m.get("confirmed", {})
+        files = ", ".join(m.get("files_changed", []))[:60]
+        det = []
+        for p, r in sorted(m.get("checks", {}).items()):
+            if r["exit"] == 1:
+                first = next((l for l in r["lines"] if "failed obligation" in l or "bounded stand-in failed" in l), "")
+                first = first.strip().replace("failed obligation ", "").replace("bounded stand-in failed on the real code: ", "B: ")
+                det.append("%s: `%s`" % (p, first.split(" (")[0][:90]))
+            elif r["exit"] != 0:
+                det.append("%s: exit %d" % (p, r["exit"]))
+        missed = [p for p, r in m.get("checks", {}).items() if r["exit"] == 0]
+        suite = c.get("suite_with_patch", "not run")
+        rows.append("| %s | %s | %s | %s | %s |" % (sid, files, "pass" if suite.startswith("PASS") else suite[:20], "<br>".join(det) if det else "—", ", ".join(missed) if missed else ""))
+    print("| seed | files changed | repo suite with patch | caught by (first failing obligation) | registered check that missed it |")
+    print("|---|---|---|---|---|")
+    print("\n".join(rows))
+
+
 if __name__ == "__main__":
     cmd = sys.argv[1]
+    if cmd == "table":
+        table()
+        sys.exit(0)
     if cmd == "stage":
         stage(sys.argv[2], sys.argv[3:])
     elif cmd == "suite":
